@@ -278,22 +278,24 @@ func VH10b_scoped() {
 	sock := vp.New(proto)
 	vt.Install()
 	var pipes []mangos.Pipe
+	var addrs []string // what each connection reported as its address when it attached
 	detached := 0
 	sock.SetPipeEventHook(func(ev mangos.PipeEvent, p mangos.Pipe) {
 		switch ev {
 		case mangos.PipeEventAttached:
 			pipes = append(pipes, p)
+			addrs = append(addrs, p.Address())
 		case mangos.PipeEventDetached:
 			detached++
 		}
 	})
-	l1, e1 := sock.NewListener("vt://la", nil)
+	l1, e1 := sock.NewListener("vt://la:0", nil) // bound to a port of the system's choosing
 	l2, e2 := sock.NewListener("vt://lb", nil)
 	verif.Assert(e1 == nil && e2 == nil && l1.Listen() == nil && l2.Listen() == nil, lab+"/listen")
 	d1, e3 := sock.NewDialer("vt://peer-x", nil)
 	verif.Assert(e3 == nil && d1.Dial() == nil, lab+"/dial")
 	verif.Quiesce()
-	pa := vt.T.Listeners["la"].Connect("pa")
+	pa := vt.T.Listeners["la:0"].Connect("pa")
 	verif.Quiesce()
 	pb := vt.T.Listeners["lb"].Connect("pb")
 	verif.Quiesce()
@@ -372,8 +374,12 @@ func VH10b_scoped() {
 		verif.Quiesce()
 		stillParked(sockRecv, "closing-a-listener")
 		stillParked(c2Recv, "closing-a-listener")
-		_, la := vt.T.Listeners["la"]
+		_, la := vt.T.Listeners["la:0"]
 		_, lb := vt.T.Listeners["lb"]
+		// what a connection reports about itself does not change because the endpoint that made it was closed
+		for i, p := range pipes {
+			verif.Assert(p.Address() == addrs[i], lab+"/address-of-a-live-connection-changed-when-its-listener-was-closed")
+		}
 		verif.Assert(!la, lab+"/closed-listener-still-listening")
 		verif.Assert(lb, lab+"/other-listener-stopped-by-listener-close")
 		if !single {
